@@ -522,6 +522,9 @@ func checkDepth(d Depth, c *vcommon.Ctx) *vcommon.Failure {
 
 type Sleep struct {
 	CancelMs int `json:"cancel_ms"`
+	// Kind: "" plain WithCancel; "timeout" the cancel func of a WithTimeout far
+	// longer than the sleep; "child" a WithCancel child of such a context.
+	Kind string `json:"kind"`
 }
 
 func checkSleep(s Sleep, c *vcommon.Ctx) *vcommon.Failure {
@@ -529,8 +532,21 @@ func checkSleep(s Sleep, c *vcommon.Ctx) *vcommon.Failure {
 		return nil
 	}
 	rt := vcommon.NewRuntime(vcommon.Cfg{})
-	ctx, cancel := context.WithCancel(context.Background())
+	var ctx context.Context
+	var cancel context.CancelFunc
+	switch s.Kind {
+	case "timeout":
+		// the deadline (10 min) cannot cut the 20 s sleep short; cancel can
+		ctx, cancel = context.WithTimeout(context.Background(), 10*time.Minute)
+	case "child":
+		parent, pcancel := context.WithDeadline(context.Background(), time.Now().Add(10*time.Minute))
+		defer pcancel()
+		ctx, cancel = context.WithCancel(parent)
+	default:
+		ctx, cancel = context.WithCancel(context.Background())
+	}
 	defer cancel()
+	c.Class("context/" + s.Kind)
 	time.AfterFunc(time.Duration(s.CancelMs)*time.Millisecond, cancel)
 	start := time.Now()
 	done := make(chan *lisp.LVal, 1)
@@ -543,13 +559,13 @@ func checkSleep(s Sleep, c *vcommon.Ctx) *vcommon.Failure {
 		o := rt.Observe(v)
 		c.NonTrivial(fmt.Sprint(s.CancelMs))
 		if !o.IsErr || o.Cond != "context-cancelled" {
-			return vcommon.Failf("sleep/not-cancelled", "a pending 20s sleep cancelled after %dms returned %s (%s) after %v", s.CancelMs, outcome(o), o.Msg, el)
+			return vcommon.Failf("sleep/not-cancelled", "a pending 20s sleep (context kind %q) cancelled after %dms returned %s (%s) after %v", s.Kind, s.CancelMs, outcome(o), o.Msg, el)
 		}
 		if el > 8*time.Second {
 			c.Class("slow-inconclusive")
 		}
 	case <-time.After(15 * time.Second):
-		return vcommon.Failf("sleep/not-interrupted", "a pending 20s sleep was not interrupted within 15s of cancelling its context after %dms", s.CancelMs)
+		return vcommon.Failf("sleep/not-interrupted", "a pending 20s sleep (context kind %q) was not interrupted within 15s of cancelling its context after %dms", s.Kind, s.CancelMs)
 	}
 	return nil
 }
@@ -601,6 +617,114 @@ func checkEmptyLoop(e EmptyLoop, c *vcommon.Ctx) *vcommon.Failure {
 		return vcommon.Failf("cancel/not-stopped", "%s with a context cancelled at poll %d ended with %s", src, e.Budget, outcome(out))
 	}
 	return nil
+}
+
+// ---------- a counted loop under a budget runs exactly the turns that fit ----------
+
+type LoopBudget struct {
+	Count  int    `json:"count"`
+	Huge   bool   `json:"huge"`   // count 2e9 instead
+	ExitAt int    `json:"exit_at"` // >=0: the body signals at that turn and a handler outside the loop ends it
+	Where  string `json:"where"`  // top | defun | after-work | nested
+	Budget int    `json:"budget"`
+}
+
+func (l LoopBudget) source(count int) string {
+	body := "(probe 1 i)"
+	if l.ExitAt >= 0 {
+		body = fmt.Sprintf("(probe 1 i) (if (= i %d) (error 'stop i) ())", l.ExitAt)
+	}
+	loop := fmt.Sprintf("(dotimes (i %d) %s)", count, body)
+	if l.ExitAt >= 0 {
+		loop = "(handler-bind ((stop (lambda (c &rest d) (probe 2 d) 'stopped))) " + loop + ")"
+	}
+	switch l.Where {
+	case "defun":
+		return "(defun run () (probe 0) " + loop + ")\n(list (run))"
+	case "after-work":
+		return "(progn (probe 0) (list 1 2 (+ 1 2)) " + loop + ")"
+	case "nested":
+		return "(let ((k 1)) (probe 0 k) (list (dotimes (j 2) (probe 3 j) " + loop + ")))"
+	}
+	return loop
+}
+
+func checkLoopBudget(l LoopBudget, c *vcommon.Ctx) *vcommon.Failure {
+	if l.Count < 1 || l.Budget < 1 {
+		return nil
+	}
+	count := l.Count
+	if l.Huge {
+		count = 2000000000
+		c.Class("huge-count")
+	}
+	c.Class("where/" + l.Where)
+	if l.ExitAt >= 0 {
+		c.Class("early-exit")
+	}
+	// reference: the unlimited run.  A loop without an exit is measured with at
+	// most 300 turns: a turn's cost does not depend on the count, and 300 turns
+	// cost more steps than any budget drawn here.
+	refCount := count
+	if l.ExitAt < 0 || l.ExitAt >= count {
+		if refCount > 300 {
+			refCount = 300
+		}
+	}
+	base, ok := baseRun(l.source(refCount), "")
+	if !ok || base.out.Panic {
+		return vcommon.Failf("harness/loop-baseline", "baseline unusable: %s\n%s", base.out.Msg, l.source(refCount))
+	}
+	n := int64(l.Budget)
+	exact := refCount == count
+	if !exact && base.steps <= n {
+		c.Class("skip/budget-beyond-reference")
+		return nil
+	}
+	src := l.source(count)
+	if count > l.Budget {
+		c.NonTrivial(src + fmt.Sprint(l.Budget))
+		c.Class("count-exceeds-budget")
+	}
+	rt := vcommon.NewRuntime(vcommon.Cfg{MaxSteps: n, NoStdlib: true})
+	done := make(chan vcommon.Outcome, 1)
+	go func() { done <- rt.Load(src) }()
+	var out vcommon.Outcome
+	select {
+	case out = <-done:
+	case <-time.After(30 * time.Second):
+		return vcommon.Failf("budget/no-termination", "%s under a budget of %d steps did not stop within 30s", src, n)
+	}
+	if out.Panic {
+		return vcommon.Failf("internal-panic", "internal panic: %s\n%s", out.Msg, src)
+	}
+	if got, want := render(rt.Trace, n), render(base.trace, n); got != want {
+		return vcommon.Failf("budget/loop-turns-lost", "under a budget of %d steps the loop's effects up to step %d differ from the unlimited run's (which needs %d steps): the turns that fit must run\nlimited:\n%sunlimited (restricted):\n%sprogram:\n%s", n, n, base.steps, got, want, src)
+	}
+	if exact && n >= base.steps {
+		if outcome(out) != outcome(base.out) {
+			return vcommon.Failf("budget/early-trip", "budget %d >= %d needed steps, yet the outcome is %s (%s), unlimited %s\n%s", n, base.steps, outcome(out), out.Msg, outcome(base.out), src)
+		}
+	} else if l.ExitAt < 0 && !(out.IsErr && out.Cond == "step-limit-exceeded") {
+		return vcommon.Failf("budget/late-trip", "budget %d < %d needed steps, yet the run ended with %s\n%s", n, base.steps, outcome(out), src)
+	}
+	return nil
+}
+
+func genLoopBudget() *rapid.Generator[LoopBudget] {
+	return rapid.Custom(func(t *rapid.T) LoopBudget {
+		l := LoopBudget{
+			Count:  rapid.IntRange(1, 4000).Draw(t, "count"),
+			Huge:   rapid.IntRange(0, 5).Draw(t, "huge") == 0,
+			ExitAt: -1,
+			Where:  rapid.SampledFrom([]string{"top", "defun", "after-work", "nested"}).Draw(t, "where"),
+			Budget: rapid.IntRange(1, 400).Draw(t, "budget"),
+		}
+		if rapid.IntRange(0, 1).Draw(t, "exit") == 0 {
+			l.ExitAt = rapid.IntRange(0, 12).Draw(t, "exitat")
+		}
+		return l
+	})
 }
 
 // ---------- every entry point starts with a full budget, and only entry points do ----------
@@ -757,6 +881,9 @@ func TestCheck(t *testing.T) {
 		vcommon.S("empty-dotimes", 800, 20000, rapid.Custom(func(t *rapid.T) EmptyLoop {
 			return EmptyLoop{N: rapid.IntRange(2, 300).Draw(t, "n"), Budget: rapid.IntRange(1, 320).Draw(t, "budget"), Huge: rapid.IntRange(0, 19).Draw(t, "huge") == 0}
 		}), checkEmptyLoop),
-		vcommon.S("sleep-cancel", 32, 200, rapid.Custom(func(t *rapid.T) Sleep { return Sleep{rapid.IntRange(5, 120).Draw(t, "ms")} }), checkSleep),
+		vcommon.S("loop-budget", 4000, 100000, genLoopBudget(), checkLoopBudget),
+		vcommon.S("sleep-cancel", 32, 200, rapid.Custom(func(t *rapid.T) Sleep {
+			return Sleep{CancelMs: rapid.IntRange(5, 120).Draw(t, "ms"), Kind: rapid.SampledFrom([]string{"", "timeout", "child"}).Draw(t, "kind")}
+		}), checkSleep),
 	)
 }
